@@ -25,7 +25,7 @@ RULE = ("(template, substrate, direction, strategy, hydrogen mode) with template
         "hand-made rule, or a synthetic ITS graph planted on a random host; non-trivial = at least one glued result and a "
         "template with >= 2 changed bonds; distinct = distinct (template, substrate, configuration)")
 EXHAUSTIVE = {"quick": False, "thorough": False}
-EXPLANATION = ("65 theorems (coq/props/C03.v) about the Gallina model of SynReactor._glue_graph/_node_glue, _invert_template, _explicit_h, "
+EXPLANATION = ("67 theorems (coq/props/C03.v) about the Gallina model of SynReactor._glue_graph/_node_glue, _invert_template, _explicit_h, "
                "h_to_explicit and SynRule.__init__ (implicit-template mode; default mode for templates without explicit H atoms): for every host, rule and valid match the reactant side of the glued ITS "
                "(on its_decompose, what _to_smarts serialises) is the substrate; element counts incl. hydrogen and total charge agree on both "
                "sides for a balanced rule (and differ by exactly the rule's imbalance otherwise); changed bonds = image of the rule's bonds with "
@@ -663,7 +663,7 @@ def _impl_one(case):
     if case.get("reads"):
         return [obs, 1 if rec.reads_ok else 0]   # repeated reads of the cached attributes all gave the first value
     if pre is not None and pre.get("script") is not None:
-        return [obs, K.script_obs(rec)]          # the value of every scripted read (model: run_reads)
+        return [obs, [K.script_obs(rec), 1]]     # the value of every scripted read (model: run_reads); 1 = the capstone's hypotheses hold (model: hyps_okb)
     return obs
 
 
@@ -1060,7 +1060,7 @@ def gen_cases(tier, rng):
     return prepare_all(cases)
 
 
-LEVEL_TEXT = ("Machine-checked proof (Coq, 65 theorems, all closed under the global context) over an executable model of gluing a rule onto a "
+LEVEL_TEXT = ("Machine-checked proof (Coq, 67 theorems, all closed under the global context) over an executable model of gluing a rule onto a "
               "substrate along a match (SynReactor._glue_graph/_node_glue), _invert_template, _explicit_h, h_to_explicit and SynRule.__init__ "
               "(implicit-template mode; default mode for templates without explicit hydrogen atoms): for EVERY substrate graph, rule graph and valid match (boolean hypotheses wf_hostb, wf_rcb, match_rcb) "
               "(a) the reactant molecule graph of the glued ITS is the substrate (same atoms in the same order, same bonds), (b) every element "
@@ -1090,7 +1090,10 @@ LEVEL_TEXT = ("Machine-checked proof (Coq, 65 theorems, all closed under the glo
               "_smarts) are modelled as a state machine (model/C03_Reactor.v) and scripts of reads on fresh reactors are compared value by value; proved: every "
               "read, in any order and any number of times, returns the value the inputs determine (C03_reads_stable, C03_fresh_its_route), the direction of the "
               "returned strings (C03_smarts_direction), and what the code does after _explicit_h raises (C03_reads_after_crash: later reads silently return the "
-              "glued graphs).")
+              "glued graphs). Capstone C03_its_list_instances / C03_reads_return_instances: for well-formed inputs and valid matcher answers (call_okb, evaluated on "
+              "every scripted case) EVERY graph its_list returns — explicit stage on or off, direct or hydrogen-expanded route, any visiting order, whatever was "
+              "read before — is a glued graph (optionally after _explicit_h) whose reactant side has the substrate's element counts, charge and bonds, which is "
+              "balanced if the rule is, and whose changed bonds are the images of the rule's plus only the in-group bonds of re-materialised hydrogens.")
 LEVEL_NOTE = ("Trusted: Coq kernel + vm_compute; the hand-written model, the statement vocabulary (proof/C03_Spec.v) and the harness encoders; RDKit "
               "parsing and VF2 matching are oracle inputs (every mapping used is re-validated by the model's match_okb / match_rcb and the theorems' "
               "hypotheses are recomputed on every case). Modelled and compared but NOT proved: default-mode rule preparation (_strip_explicit_h), "
